@@ -128,6 +128,9 @@ Proof.
     destruct sv as [|h [|o [|e [|x r]]]]; cbn [fst snd]; auto. split; auto. congr_tac.
   - destruct s as [l g], t as [l' g']. rewrite !loadtypes_exit_spec. cbn [fst snd] in *.
     destruct sv as [|x [|y r]]; cbn [fst snd]; auto. split; auto. apply tl_pop_congr; auto.
+  - split; auto.
+  - cbn [fst snd]. split; auto. apply tl_pop_congr; auto.
+  - cbn [fst snd]. split; auto. apply tl_pop_congr; auto.
 Qed.
 
 (* --- R2: exit after enter gives back the state ---------------------------------------------------------- *)
@@ -379,6 +382,14 @@ Proof.
     + apply tl_pop_push. reflexivity.
     + unfold tl_pop. destruct (st_get g_ondemand_types g) as [[x|x|[|x r]]|] eqn:G; try apply seq_at_refl.
       exfalso. eapply N; eauto.
+  - (* the mixing guard changes nothing *)
+    unfold dynguard_enter in H. cbn [fst snd] in H.
+    repeat match type of H with context [if ?b then _ else _] => destruct b end; try discriminate;
+      apply some_pair_inj in H; destruct H as [<- <-]; split; apply seq_at_refl.
+  - destruct a as [x|d|x]; try discriminate. apply some_pair_inj in H. destruct H as [<- <-]. cbn [fst snd]. split; [|apply seq_at_refl].
+    apply tl_pop_push. reflexivity.
+  - destruct a as [x|d|x]; try discriminate. apply some_pair_inj in H. destruct H as [<- <-]. cbn [fst snd]. split; [apply seq_at_refl|].
+    apply tl_pop_push. reflexivity.
 Qed.
 
 (* --- the theorem: any program, any depth, normal and exceptional exits, failed enters ---------------------- *)
